@@ -838,7 +838,7 @@ func (c *vCase) sigIDFromDER(der []byte) int {
 	}
 	s, err := lnwire.NewSigFromECDSARawSignature(der)
 	if err != nil {
-		return -1
+		return 1 << 30
 	}
 	return c.sid(s)
 }
@@ -949,6 +949,7 @@ type vChanDef struct {
 }
 
 type vGen struct {
+	kind  string
 	r     *vrng
 	c     *vCase
 	nk    []*btcec.PrivateKey
@@ -992,7 +993,7 @@ func (g *vGen) setup() {
 		b := (a + 1 + r.intn(3)) % 4
 		d := vChanDef{n: g.sortedPair(a, b), b: [2]int{r.intn(4), r.intn(4)}}
 		d.envKind = vEnvKinds[r.intn(len(vEnvKinds))]
-		if i == 0 && r.intn(4) != 0 {
+		if i == 0 && (r.intn(4) != 0 || g.kind == "burst") {
 			d.envKind = "good"
 		}
 		d.value = []int64{1000, 500, 499, 501, 100000}[r.intn(5)]
@@ -1399,11 +1400,18 @@ func (g *vGen) byteCorrupt(m lnwire.Message) lnwire.Message {
 func (g *vGen) next(step int, kind string) (lnwire.Message, string) {
 	r := g.r
 	nch := len(g.chans)
-	for {
+	for tries := 0; ; tries++ {
 		var m lnwire.Message
 		tag := ""
 		w := r.intn(100)
-		if kind == "burst" && step > 1 {
+		if tries > 40 {
+			// the pending-update rule keeps refusing: send something harmless
+			w = 36 + r.intn(14)
+			kind = "mixed"
+		}
+		if kind == "burst" && step == 0 {
+			m, tag = g.validCA(0), "ca_valid"
+		} else if kind == "burst" && step > 1 {
 			// rate-limiter: a long run of distinct valid updates
 			u, t := g.validCU(0, 0)
 			if r.intn(6) == 0 {
@@ -1490,7 +1498,7 @@ func TestVerifGossip(t *testing.T) {
 	out := vOpenOut()
 	defer out.close()
 	master := vNewRng(vSeed())
-	ncases := vCases(70, 1500)
+	ncases := vCases(150, 2500)
 	only := int(vEnvInt("VERIF_CASE_ONLY", -1))
 
 	t.Run("cases", func(t *testing.T) {
@@ -1512,9 +1520,9 @@ func TestVerifGossip(t *testing.T) {
 func vRunCase(t *testing.T, r *vrng, ci int) map[string]any {
 	f := vNewFix(t, r)
 	c := &vCase{f: f, ids: newVIDs(), keys: map[[33]byte]bool{}, scids: map[uint64]bool{}}
-	g := &vGen{r: r, c: c}
-	g.setup()
 	kind := []string{"mixed", "mixed", "mixed", "ordered", "ordered", "ordered", "ordered", "burst"}[r.intn(8)]
+	g := &vGen{r: r, c: c, kind: kind}
+	g.setup()
 	nsteps := 8 + r.intn(14)
 	if kind == "burst" {
 		nsteps = 16 + r.intn(6)
